@@ -316,3 +316,25 @@ def run(F, S, R, tier):
             else:
                 R.bad("prov/template-epoch", "the template's epoch does not come from Consensus::next_epoch_ext", [c.where()])
     R.guard("prov/template-epoch", fresh_epoch)
+
+    # calc_total_by_X(new) = total - self.X + new reads the OLD self.X: it has to be evaluated before self.X is overwritten (round-2 seed
+    # C13-seed3: the call moved behind `current.size.txs = new_txs_size`, the total then drifts by the old component size)
+    def ledger_order():
+        import re
+        n = 0
+        for fn, fld in (("update_transactions", "txs"), ("update_uncles", "uncles"), ("update_proposals", "proposals"), ("update_full", "txs")):
+            for b in [x for x in F.bodies_of_crate("ckb_tx_pool") if re.search(r"block_assembler::BlockAssembler::%s" % fn, x.path)]:
+                calls = b.calls_to(r"TemplateSize::calc_total_by_%s$" % ("txs" if fld == "txs" else fld))
+                writes = [i for i, blk in enumerate(b.blocks) for st in blk["s"] if st[0][1] and str(st[0][1][-1]).endswith("TemplateSize." + fld)]
+                if not calls or not writes:
+                    continue
+                n += 1
+                R.fn(b)
+                if all(any(b.dominates(c.bb, w) and (c.bb != w) or (c.bb == w) for c in calls) for w in writes) and not any(c.bb in b.reachable(w) and not b.dominates(c.bb, w) for c in calls for w in writes):
+                    R.ok("order/ledger-calc-before-write/" + fn, "%s evaluates calc_total_by_%s before it overwrites size.%s" % (fn, fld, fld), [calls[0].where()])
+                else:
+                    R.bad("order/ledger-calc-before-write/" + fn, "%s overwrites size.%s before calc_total_by_%s reads the old value: the total is computed against the new component size" % (fn, fld, fld), [calls[0].where()])
+        R.sites += n
+        if n < 3:
+            R.bad("order/ledger-calc-before-write/anchor-lost", "expected the calc-then-write pattern in update_transactions / update_uncles / update_proposals, found %d" % n, [])
+    R.guard("order/ledger-calc-before-write", ledger_order)
